@@ -23,7 +23,7 @@ sid = f'{prop}{tag}'
 dst = os.path.join(here, 'seeded', sid)
 os.makedirs(dst, exist_ok=True)
 for f in ('patch.diff', 'demo.py', 'README.md'):
-    if os.path.exists(os.path.join(src, f)): shutil.copy(os.path.join(src, f), os.path.join(dst, f))
+    if os.path.exists(os.path.join(src, f)) and os.path.abspath(src) != os.path.abspath(dst): shutil.copy(os.path.join(src, f), os.path.join(dst, f))
 patch = os.path.join(dst, 'patch.diff')
 
 def sh(cmd, **kw):
@@ -81,7 +81,13 @@ caught = meta.get('checks', {}).get(prop, {}).get('exit') == 1
 meta['caught_by_own_check'] = caught
 meta['caught_by'] = sorted(p for p, r in meta.get('checks', {}).items() if r['exit'] == 1)
 readme = open(os.path.join(dst, 'README.md')).read() if os.path.exists(os.path.join(dst, 'README.md')) else ''
-meta['needs'] = 'see README.md'
+old = {}
+if os.path.exists(os.path.join(dst, 'meta.json')):
+    try: old = json.load(open(os.path.join(dst, 'meta.json')))
+    except Exception: old = {}
+for k in ('what', 'needs', 'caught_how', 'tests_with_patch', 'first_pass'):
+    if k in old and k not in meta: meta[k] = old[k]
+meta.setdefault('needs', 'see README.md')
 meta['ran'] = f'tools/seed_eval.py {prop} {tag}' + (' --all' if do_all else '') + (' --tests' if do_tests else '')
 json.dump(meta, open(os.path.join(dst, 'meta.json'), 'w'), indent=1)
 print(json.dumps({k: meta[k] for k in ('id', 'apply', 'demo_clean_exit', 'demo_patched_exit', 'caught_by_own_check', 'caught_by', 'check_after_restore') if k in meta}))
